@@ -57,6 +57,30 @@ def run(ctx: Ctx, tier: str) -> Result:
         res.ok("C15.ONCE", {"popped context": "processed iff at its location, else pushed back"})
     else:
         res.fail(Finding("C15.ONCE", pcb.qname, "<pop; process xor push back>", pcb.loc(), "a pending context is not `popped once, then processed if at its location, else pushed back` (pops %d, process %d, push back %d)" % (len(pops), len(procs), len(backs))))
+    # stack discipline: the pending contexts of a thread nest like its calls, so the end that is popped, the end a
+    # non-matching context is put back to and the end new contexts are registered at must be the same end
+    regs0 = [c for c in t.calls_in(worker) if isinstance(c.func, ast.Attribute) and c.func.attr in ("append", "appendleft", "insert")
+             and c.args and isinstance(c.args[0], ast.Call) and cc in t.resolve_call(c.args[0], worker).ctor]
+    if pops and backs and regs0:
+        def end(call):
+            a_ = call.func.attr
+            if a_ in ("pop",):
+                return "left" if (call.args and norm(call.args[0]) == "0") else "right"
+            if a_ in ("popleft", "appendleft"):
+                return "left"
+            if a_ == "insert":
+                return "left" if (call.args and norm(call.args[0]) == "0") else "middle"
+            return "right"
+        ends = {"pop": end(pops[0]), "push back": end(backs[0]), "register": end(regs0[0])}
+        if len(set(ends.values())) == 1:
+            res.ok("C15.ONCE", {"pending contexts form a stack": ends})
+        else:
+            bad_ = backs[0] if ends["push back"] != ends["pop"] else regs0[0]
+            f_ = pcb if bad_ is backs[0] else worker
+            res.fail(Finding("C15.ONCE", f_.qname, bad_, f_.loc(bad_),
+                             "pending contexts are popped from the %s end but %s: with nested openings the context examined when the inner invocation "
+                             "ends is the enclosing one, so the inner span/capture is never completed" % (
+                                 ends["pop"], "put back at the %s end" % ends["push back"] if bad_ is backs[0] else "registered at the %s end" % ends["register"])))
     if ats:
         F, E = "@" + roles["frame"], "@" + roles["event"]
         b = t.bind_args(cc.lookup("at_location"), ats[0])
@@ -80,17 +104,41 @@ def run(ctx: Ctx, tier: str) -> Result:
             res.ok("C15.ONCE", {"pending work looked at on": "line/return/exception events when something is pending"})
         else:
             res.fail(Finding("C15.ONCE", worker.qname, callsite[0], worker.loc(callsite[0]), "pending work is not examined on every line/return/exception event of a thread that has some: %s" % conds))
-        regs = [c for c in t.calls_in(worker) if cc in t.resolve_call(c, worker).ctor]
-        if len(regs) == 1 and paths.dominates(p, callsite[0], regs[0], worker) or (len(regs) == 1 and regs[0].lineno > callsite[0].lineno):
-            res.ok("C15.ONCE", {"registered after pending work was examined (not completed by its own event)": worker.loc(regs[0])})
+        regf, regs, reg_anchor = worker, [c for c in t.calls_in(worker) if cc in t.resolve_call(c, worker).ctor], None
+        if not regs:
+            for c0 in t.calls_in(worker):
+                for x in t.resolve_call(c0, worker).repo:
+                    if x.cls is worker.cls and x is not pcb:
+                        rr = [c for c in t.calls_in(x) if cc in t.resolve_call(c, x).ctor]
+                        if rr:
+                            regf, regs, reg_anchor = x, rr, c0
+        anchor_node = reg_anchor if reg_anchor is not None else (regs[0] if regs else None)
+        if len(regs) == 1 and anchor_node.lineno > callsite[0].lineno:
+            res.ok("C15.ONCE", {"registered after pending work was examined (not completed by its own event)": regf.loc(regs[0])})
         else:
             res.fail(Finding("C15.ONCE", worker.qname, regs[0] if regs else "<CallbackContext(...)>", worker.loc(), "new deferred work is registered before the pending work of this event is examined: it can be completed by the event that opened it"))
         if len(regs) == 1:
             rb = t.bind_args(cc.lookup("__init__"), regs[0])
-            exp = {k: ctx.expand.expand(v, worker) for k, v in rb.items()}
+            exp = {k: ctx.expand.expand(v, regf) for k, v in rb.items()}
+            if regf is not worker:
+                # translate the helper's parameters back to the worker's arguments
+                hb = t.bind_args(regf, reg_anchor)
+                tr_ = {}
+                for k, alts in exp.items():
+                    out_ = []
+                    for x in alts:
+                        if x.startswith("@") and x[1:] in hb:
+                            out_ += ctx.expand.expand(hb[x[1:]], worker)
+                        elif x.startswith("@") and "." in x and x[1:].split(".", 1)[0] in hb:
+                            base_, rest_ = x[1:].split(".", 1)
+                            out_ += [y + "." + rest_ for y in ctx.expand.expand(hb[base_], worker)]
+                        else:
+                            out_.append(x)
+                    tr_[k] = out_
+                exp = tr_
             okr = [x for x in exp.get("event", []) if not x.startswith("<loop")] == [E] and exp.get("filename") == ["os.path.basename(%s.f_code.co_filename)" % F] \
                 and exp.get("name") == ["%s.f_code.co_name" % F]
-            cbs = ctx.expand.expand(rb["callbacks"], worker) if "callbacks" in rb else []
+            cbs = exp.get("callbacks", [])
             if okr and cbs and cbs[0].endswith(".callbacks"):
                 res.ok("C15.ONCE", {"opened with the triggering event's file/function and the hit's callbacks": True})
             else:
@@ -209,6 +257,32 @@ def run(ctx: Ctx, tier: str) -> Result:
                     store_fields.setdefault(attr, []).append((sf, v))
     local_store = [a for a, lst in store_fields.items() if all(sf.name == "__init__" and isinstance(v, ast.Call) and "threading.local" in t.resolve_call(v, sf).ext for sf, v in lst)]
     ident_keyed = [n for f in [x for lst in tl.methods.values() for x in lst] for n in t.nodes_in(f, ast.Attribute) if n.attr in ("ident", "native_id")]
+    # the initial value of a thread must be made for that thread: the provider is called inside get(), per absent slot
+    gt = tl.lookup("get")
+    local_fields = set()
+    for (cq, attr), lst_ in t._attr_store_index().items():
+        if cq == TL and any(v_ is not None and isinstance(v_, ast.Call) and "threading.local" in t.resolve_call(v_, sf_).ext for sf_, v_, _ in lst_):
+            local_fields.add(attr)
+    slot_stores = [n for n in t.nodes_in(gt, ast.Assign) if isinstance(n.targets[0], ast.Attribute) and isinstance(n.targets[0].value, ast.Attribute)
+                   and tl.mangle(n.targets[0].value.attr) in local_fields]
+    fresh = False
+    for n in slot_stores:
+        v = n.value
+        if isinstance(v, ast.Call) and norm(v.func).endswith("default_provider"):
+            fresh = True
+        elif isinstance(v, ast.Name):
+            # nearest preceding assignment of that name in the same block
+            pos = paths.block_position(p, n)
+            prev = [x for x in getattr(pos[0], pos[1])[:pos[2]] if isinstance(x, ast.Assign) and norm(x.targets[0]) == v.id] if pos else []
+            if prev and isinstance(prev[-1].value, ast.Call) and norm(prev[-1].value.func).endswith("default_provider"):
+                fresh = True
+    prov_calls = [c for c in t.calls_in(gt) if norm(c.func).endswith("default_provider")]
+    if slot_stores and fresh and prov_calls:
+        res.ok("C15.THREAD", {"default made per thread": norm(prov_calls[0])})
+    else:
+        res.fail(Finding("C15.THREAD", gt.qname, slot_stores[0] if slot_stores else "<slot = default_provider()>", gt.loc(),
+                         "the value a thread starts with is not produced by calling the provider for that thread (one object is handed to every "
+                         "thread): all threads push and pop the same stack of pending work"))
     if class_level:
         res.fail(Finding("C15.THREAD", TL, class_level[0], tl.module.relpath,
                          "the per-thread values live in a class-level container shared by every ThreadLocal instance: the pending work of two handlers is mixed"))
